@@ -84,6 +84,13 @@ func quorumSchedule(rep *lib.Report, tab *extract.Table, r *lib.Rand, chainSeed 
 					}
 					cands = append(cands, f)
 				}
+				if len(cands) == 0 {
+					for _, f := range ct.Fields {
+						if !extract.IsIrrelevant(f.Name) && f.Name != "EventNonce" && f.Kind != "strlist" && f.Kind != "intlist" {
+							cands = append(cands, f)
+						}
+					}
+				}
 				f := cands[r.Intn(len(cands))]
 				for try := 0; try < 10; try++ {
 					fieldOf(v, f.Name).Set(reflect.ValueOf(g.value(f, 0)))
